@@ -374,3 +374,28 @@ Example erase_example_run :
   erase_i erase_example_tier 3 5 ETruncate true
   = Ok (mkIT [97%N] [mkI 0 2 [120%N]; mkI 2 6 [121%N]; mkI 7 8 [122%N]] 0 8).
 Proof. vm_compute. reflexivity. Qed.
+
+(* no shrinking: no condition on where the region lies *)
+Theorem erase_i_keep_ok t a b mode :
+  wf_itier t -> a < b ->
+  (mode = EError -> forall i, In i (ients t) -> ~ overlaps a b i) ->
+  erase_i t a b mode false =
+  Ok (mkIT (iname t) (flat_map (keep1 a b mode) (ients t)) (imin t) (imax t)).
+Proof.
+  intros Hwf Hab Herr. pose proof Hwf as (Hw & Hs & Hl).
+  unfold erase_i. destruct (Z.leb_spec b a); [lia|].
+  rewrite (copy_itier_wf t Hwf). cbn [bind].
+  destruct (erase_keep a b mode (ients t)) as [l1|e] eqn:Ek.
+  2:{ exfalso. destruct mode; simpl in Ek; try discriminate.
+      destruct (existsb (overlapsb a b) (ients t)) eqn:Ex; [|discriminate].
+      apply existsb_exists in Ex as (i & Hi & Ho). apply (Herr eq_refl i Hi).
+      unfold overlapsb, overlaps in *. lia. }
+  apply erase_keep_flat in Ek. subst l1. cbn [bind].
+  set (l1 := flat_map (keep1 a b mode) (ients t)).
+  assert (wf_ients l1) as W1
+      by (apply (flat_map_wf (fun x => x)); [intros; lia|apply keep1_pieces_ok, Hab|exact Hw]).
+  assert (Forall (in_span (imin t) (imax t)) l1) as S1
+      by (apply (flat_map_in_span (fun x => x)); [intros; lia|apply keep1_pieces_ok, Hab|apply Hw|exact Hs]).
+  rewrite new_itier_ok; [|exact W1|apply labels_stripped_flat_map; [intros i j; apply keep1_labels|exact Hl]].
+  rewrite (hull_min_in_span _ _ _ S1), (hull_max_in_span _ _ _ S1). reflexivity.
+Qed.
